@@ -43,6 +43,12 @@ type recPoint struct {
 	S string  `shp:"SVal"`
 	F float64 // matched by field name
 }
+type recPointSL struct {
+	geom.Point
+	F float64
+	I int    `shp:"ival"`
+	S string `shp:"SVal"` // the string attribute is the last field of the record
+}
 type recMultiPoint struct {
 	geom.MultiPoint
 	I int    `shp:"ival"`
@@ -162,11 +168,14 @@ func roundTrip(kind string, recs []rec, api string) {
 		return map[string]interface{}{"api": api, "kind": kind, "records": gs, "record_index": i, "observed": extra}
 	}
 	// ---- write
-	if api == "struct" {
+	if api == "struct" || api == "struct-string-last" {
 		var arch interface{}
 		switch kind {
 		case "Point":
 			arch = recPoint{}
+			if api == "struct-string-last" {
+				arch = recPointSL{}
+			}
 		case "MultiPoint":
 			arch = recMultiPoint{}
 		case "LineString":
@@ -188,6 +197,9 @@ func roundTrip(kind string, recs []rec, api string) {
 			switch t := r.g.(type) {
 			case geom.Point:
 				d = recPoint{t, r.a.I, r.a.S, r.a.F}
+				if api == "struct-string-last" {
+					d = recPointSL{t, r.a.F, r.a.I, r.a.S}
+				}
 			case geom.MultiPoint:
 				d = recMultiPoint{t, r.a.I, r.a.S, r.a.F}
 			case geom.LineString:
@@ -240,7 +252,7 @@ func roundTrip(kind string, recs []rec, api string) {
 		var gs string
 		var gf float64
 		more := false
-		if api == "struct" {
+		if api == "struct" || api == "struct-string-last" {
 			var r decRec
 			if p := try(func() { more = d.DecodeRow(&r) }); p != "" {
 				rep.Violation(fmt.Sprintf("struct|%s|DecodeRow-panic", kind), detail(n, p))
@@ -249,11 +261,24 @@ func roundTrip(kind string, recs []rec, api string) {
 			g, gi, gs, gf = r.G, r.I, r.S, r.F
 		} else {
 			var f map[string]string
-			if p := try(func() { g, f, more = d.DecodeRowFields("IVAL", "sval", "FVal") }); p != "" {
+			geomOnly := api == "fields-mixed" && n%2 == 0
+			if p := try(func() {
+				if geomOnly {
+					g, f, more = d.DecodeRowFields()
+				} else {
+					g, f, more = d.DecodeRowFields("IVAL", "sval", "FVal")
+				}
+			}); p != "" {
 				rep.Violation(fmt.Sprintf("fields|%s|DecodeRowFields-panic", kind), detail(n, p))
 				return
 			}
-			if more {
+			if more && geomOnly {
+				// attributes of this record are not asked for
+				gi, gs, gf = recs[n%len(recs)].a.I, recs[n%len(recs)].a.S, recs[n%len(recs)].a.F
+				if gs != strings.Trim(gs, " ") {
+					gs = recs[n%len(recs)].a.S
+				}
+			} else if more {
 				gi, _ = strconv.Atoi(strings.TrimSpace(f["IVAL"]))
 				gs = f["sval"]
 				gf, _ = strconv.ParseFloat(strings.TrimSpace(f["FVal"]), 64)
@@ -292,7 +317,7 @@ func main() {
 		return
 	}
 	rep = report.New("C16", tier, "model_checking")
-	rep.Rule = "E1: for each of Point, MultiPoint, LineString, MultiLineString, Polygon, *Bounds: every shape with 1..3 parts/rings x 1..3 vertices (rings closed and unclosed, both windings by rotation of the pattern list) with coordinates from 19 finite float64 patterns, as single records, ordered pairs and triples of a reduced shape list, and the empty file; attributes int {0,-1,+-999999999,9999999999,42}, string {empty, 1 byte, 50 bytes, UTF-8, inner spaces, leading/trailing space}, float {0,-1.5,1/3,1e10,123456789.1234567891,-1e-10}; both the struct API (tags/names in different letter case between writer and reader) and the field API. Oracle: same number and order of records, bit-identical coordinates part by part (unclosed rings closed, boxes as 5-vertex rectangles), ints equal, strings equal, floats within 1e-10. Non-trivial = files with >= 2 records or >= 2 parts."
+	rep.Rule = "E1: for each of Point, MultiPoint, LineString, MultiLineString, Polygon, *Bounds: every shape with 1..3 parts/rings x 1..3 vertices (rings closed and unclosed, both windings by rotation of the pattern list) with coordinates from 19 finite float64 patterns, as single records, ordered pairs and triples of a reduced shape list, and the empty file; attributes int {0,-1,+-999999999,9999999999,42}, string {empty, 1 byte, 50 bytes, UTF-8, inner spaces, leading/trailing space}, float {0,-1.5,1/3,1e10,123456789.1234567891,-1e-10}; multi-line strings also with empty parts after the first; the struct API (tags/names in different letter case between writer and reader; for points also a record type whose last field is the string), the field API, and the field API with geometry-only reads (no field names) on every other record. Oracle: same number and order of records, bit-identical coordinates part by part (unclosed rings closed, boxes as 5-vertex rectangles), ints equal, strings equal, floats within 1e-10. Non-trivial = files with >= 2 records or >= 2 parts."
 	tmpRoot = "/dev/shm"
 	if st, err := os.Stat(tmpRoot); err != nil || !st.IsDir() {
 		tmpRoot = os.TempDir()
@@ -322,6 +347,20 @@ func main() {
 			shapes[k] = append(shapes[k], s)
 		}
 	}
+	// multi-line strings may have empty parts (first part non-empty so that the record has a vertex)
+	for _, s := range geomgen.Simple(geomgen.Config{MaxMembers: 3, Lens: []int{0, 1, 2}, FlatMax: 0, PolyRings: 0}) {
+		if s.Kind == geomgen.KMultiLineString && len(s.Kids) >= 2 && s.Kids[0].N > 0 {
+			empty := false
+			for _, k := range s.Kids {
+				if k.N == 0 {
+					empty = true
+				}
+			}
+			if empty {
+				shapes["MultiLineString"] = append(shapes["MultiLineString"], s)
+			}
+		}
+	}
 	shapes["Bounds"] = []geomgen.Skel{{Kind: geomgen.KBounds}}
 	type job struct {
 		kind string
@@ -346,7 +385,11 @@ func main() {
 			}
 			return g
 		}
-		for _, api := range []string{"struct", "fields"} {
+		apis := []string{"struct", "fields", "fields-mixed"}
+		if kind == "Point" {
+			apis = append(apis, "struct-string-last")
+		}
+		for _, api := range apis {
 			jobs = append(jobs, job{kind, nil, api})
 			for si := range sk {
 				for rot := 0; rot < len(pat); rot++ {
